@@ -43,6 +43,9 @@ def run(rep, tier):
     # the legacy EuclideanDistance / EuclideanLength traits are twins of Euclidean.distance / length (rule shared with C16)
     from . import c16
     c16.legacy_twins(rep, F, "R7.11", ("Euclidean",))
+    # the zero shortcut and the containment branch of the polygon kernels stand on the exact point location of C02 (shared tables)
+    from . import c02_kernels
+    c02_kernels.run(rep, F, tier, only={"polygon-composition", "ring-step"}, rule="R7.12")
     from . import gt_tables
     gt_tables.run(rep, F, "R7.10", select={"line_euclidean_length", "line_segment_distance", "point_line_euclidean_distance", "Line::dx", "Line::dy"})
 
